@@ -245,14 +245,16 @@ def scenarios(sim, cls):
     elif cls == 'IfBlock':
         for ne in (0, 1, 2):
             for has_else in (False, True):
-                for t in TY:
+                for t, t2 in itertools.product(TY, TY if ne else
+                                               ('INTEGER',)):
                     for nb in (0, 1):
-                        conds = [E(t)] + [E('INTEGER') for _ in range(ne)]
+                        conds = [E(t)] + [E(t2) for _ in range(ne)]
                         elseifs = [ANode(sim, 'ElseIfStmt', cond=c,
                                          then_stmts=[]) for c in conds[1:]]
                         else_stmt = ANode(sim, 'ElseStmt') if has_else \
                             else None
-                        add(f'elseif={ne} else={has_else} {t} body={nb}',
+                        add(f'elseif={ne} else={has_else} {t}/{t2} '
+                            f'body={nb}',
                             ANode(sim, cls,
                                   if_blocks=[(c, body(nb)) for c in conds],
                                   else_body=body(nb) if has_else else [],
@@ -399,7 +401,8 @@ def scenarios(sim, cls):
                  'RangeCaseClause', 'CaseStmt'):
         ops = sim.enum('qbee.expr', 'Operator')
         sbc = sim.aclass('SelectBlockContext')
-        for vt, ct in itertools.product(TY, TY):
+        for vt, ct, tt in itertools.product(
+                TY, TY, TY if cls == 'RangeCaseClause' else (None,)):
             sel = ANode(sim, 'SelectBlock', value=E(vt), case_blocks=[])
             blk = [DataObj(sim, sbc.ci, ['select', '_end', '_sel',
                                          AType(vt)], {})]
@@ -412,8 +415,11 @@ def scenarios(sim, cls):
                     clauses.append(ANode(sim, 'CompareCaseClause',
                                          op=ops.member(m), value=E(ct)))
             if cls in ('RangeCaseClause', 'CaseStmt'):
+                # the two ends are typed independently (one clause per
+                # SELECT so that an ill-typed end rejects only itself)
                 clauses.append(ANode(sim, 'RangeCaseClause',
-                                     from_value=E(ct), to_value=E(ct)))
+                                     from_value=E(ct),
+                                     to_value=E(tt or ct)))
             case = ANode(sim, 'CaseStmt', cases=clauses)
             case.parent = sel
             for c in clauses:
@@ -427,7 +433,8 @@ def scenarios(sim, cls):
             else:
                 for c in clauses:
                     lab = c.fields.get('op')
-                    add(f'{vt} clause {ct} {lab.name if lab else ""}', c,
+                    tl = f' TO {tt}' if tt else ''
+                    add(f'{vt} clause {ct}{tl} {lab.name if lab else ""}', c,
                         blocks=blk, admit=('SelectBlock', sel))
     return out
 
